@@ -329,6 +329,14 @@ func scenarios() []scenario {
 				w.SM.CtrlAddIpBlacklist(base.ApiCtrlAddIpBlacklistReq{Ip: "10.1.1.3", DurationSec: 100})
 			})
 		}},
+		// the HLS directory cleanup lal schedules when an input ends runs as a thread of its own (it looks the
+		// group up and removes files) while another stream name appears and the tick erases idle groups
+		{Name: "hls-cleanup+second-stream+tick", Conf: world.Conf{"hls.enable": true, "hls.cleanup_mode": 1}, Build: func(w *world.W, e *sched.Exec) {
+			rtmpThread(w, e, "publisherS", rtmpScript("publish", "s", mediaMsgs(1)))
+			rtmpThread(w, e, "publisherT", rtmpScript("publish", "t", mediaMsgs(1)))
+			var tick uint32
+			e.Go("tick", func() { w.SM.VerifTick(&tick) })
+		}},
 		{Name: "hls-pub+hls-sub+tick", Conf: world.Conf{"hls.enable": true, "hls.cleanup_mode": 0}, Build: func(w *world.W, e *sched.Exec) {
 			rtmpThread(w, e, "publisher", rtmpScript("publish", "s", mediaMsgs(2)))
 			e.Go("hls-get", func() {
@@ -397,10 +405,17 @@ func runOnce(sc scenario, prefix []int) outcome {
 	w := world.New(conf)
 	e := sched.New(prefix)
 	rtsp.VerifGoFn = func(f func()) { e.Go("rtsp-onsdp", f) }
+	logic.VerifSetDefer(w.SM, func(ms int, f func()) { e.Go("hls-cleanup", f) })
+	defer logic.VerifSetDefer(w.SM, nil)
 	sc.Build(w, e)
 	e.Run(10 * time.Second)
 	var o outcome
 	o.Points, o.Dead, o.Hang, o.Diverge = e.Points, e.Dead, e.Hang, e.Diverge
+	if os.Getenv("C20_DEBUG") != "" {
+		for _, t := range e.Threads() {
+			fmt.Fprintf(os.Stderr, "C20_DEBUG thread %s locks=%d panic=%q\n", t.Name, t.Locks(), t.Panic())
+		}
+	}
 	for _, t := range e.Threads() {
 		if p := t.Panic(); p != "" && o.Panic == "" {
 			o.Panic = t.Name + ": " + p
@@ -670,6 +685,9 @@ func main() {
 		r.LoadReplay(&rp)
 		sb, _ := json.Marshal(rp.Schedule)
 		cr, out, err := runChild(rp.Scenario, "0", "60", string(sb))
+		if os.Getenv("C20_DEBUG") != "" {
+			fmt.Fprintln(os.Stderr, out)
+		}
 		if err != nil {
 			r.Violation("process-crash", tail(out, 1500), rp)
 		}
